@@ -9,6 +9,7 @@ pub mod hops;
 pub mod oracle;
 pub mod panic;
 pub mod prefee;
+pub mod risk;
 pub mod privsim;
 pub mod xrate;
 pub mod tx;
@@ -22,6 +23,7 @@ pub fn lookup(name: &str) -> Option<fn(&str) -> String> {
         "hops" => hops::run,
         "hopsref" => hops::run_ref,
         "prefee" => prefee::run,
+        "risk" => risk::run,
         "xrate" => xrate::run,
         "oracle" => oracle::run,
         "oraclerisk" => oracle::run_risk,
